@@ -37,7 +37,7 @@ def check(ctx):
     import pfhedge.nn as nn
     g = ctx.gen
     ctx.lean_gate()
-    n = 500 if ctx.tier == "quick" else 8000
+    n = 1500 if ctx.tier == "quick" else 15000
     reqs, metas = [], []
     for it in range(n):
         which = g.choice(["es", "var", "erm", "eloss", "iso", "qcvar", "oce"])
@@ -119,8 +119,9 @@ def check(ctx):
             for col, gv in zip(shifted, got):
                 kind_, exp = var_expected(pf, col)
                 ctx.stats[f"var:{kind_}"] += 1
-                okv = (kind_ != "between" and abs(gv - float(exp)) <= 1e-12 * max(1.0, abs(float(exp)))) or \
-                      (kind_ == "between" and float(exp[0]) - 1e-12 <= gv <= float(exp[1]) + 1e-12)
+                okv = (kind_ in ("min", "max", "kth") and abs(gv - float(exp)) <= 1e-12 * max(1.0, abs(float(exp)))) or \
+                      (kind_ == "between" and float(exp[0]) - 1e-12 <= gv <= float(exp[1]) + 1e-12) or \
+                      (kind_ == "any" and any(abs(gv - float(e_)) <= 1e-12 * max(1.0, abs(float(e_))) for e_ in exp))
                 if not okv:
                     ctx.fail("value at risk differs from the k-th worst outcome / min / max prescribed for this level", case,
                              key=f"value_at_risk:{kind_}", detail={"impl": gv, "expected": str(exp)})
@@ -277,6 +278,48 @@ def check(ctx):
                 metas.append(("oce", case, got))
         if mut:
             ctx.mutated(which, mut, case)
+    # ---------------- dim=None: the functional forms reduce over ALL entries (the sample is the flattened tensor)
+    for it in range(60 if ctx.tier == "quick" else 900):
+        smp = gen_sample(g, M=g.choice([2, 3]))
+        if smp["M"] < 2:
+            continue
+        x = to_tensor(torch, smp)
+        allv = [c[i] for i in range(smp["N"]) for c in smp["cols"]]      # row-major flattening of the (N, M) tensor
+        nall = len(allv)
+        which = g.choice(["es", "var", "qcvar"])
+        case = {"which": which, "dim": None, "N": smp["N"], "M": smp["M"], "kind": smp["kind"], "cols": enc_rat(smp["cols"])}
+        ctx.case(case, True, tag=f"{which}:dim=None")
+        ctx.traces += 1
+        if which == "es":
+            pf = float(g.choice([F(1, 10), F(1, 2), F(1), F(1, nall), F(g.randint(1, nall), nall), F(33, 100)]))
+            st, v, _ = call_impl(fnl.expected_shortfall, x, pf)
+            pn = F(pf) * nall
+            ks = {math.ceil(pf * nall)} if not (abs(pn - round(pn)) <= F(1, 10 ** 9) and pn != round(pn)) else {math.floor(pn), math.ceil(pn), int(round(pn))} - {0}
+            if st != "ok" or v.dim() != 0 or not any(feq(F(float(v)), es_exact(kk, allv)) for kk in ks):
+                ctx.fail("expected_shortfall(dim=None) differs from minus the mean of the ceil(p n) worst entries of the whole tensor", case | {"p": pf},
+                         key="expected_shortfall:dim-none", detail=str(v)[:100])
+        elif which == "var":
+            pf = float(g.choice([F(1, 10), F(1, 2), F(1), F(1, nall), F(g.randint(1, nall), nall), F(33, 100), F(999, 1000)]))
+            st, v, _ = call_impl(fnl.value_at_risk, x, pf)
+            kind_, exp = var_expected(pf, allv)
+            okv = st == "ok" and v.dim() == 0 and (
+                (kind_ in ("min", "max", "kth") and abs(float(v) - float(exp)) <= 1e-12 * max(1.0, abs(float(exp)))) or
+                (kind_ == "between" and float(exp[0]) - 1e-12 <= float(v) <= float(exp[1]) + 1e-12) or
+                (kind_ == "any" and any(abs(float(v) - float(e_)) <= 1e-12 * max(1.0, abs(float(e_))) for e_ in exp)))
+            if not okv:
+                ctx.fail("value_at_risk(dim=None) differs from the order statistic of the whole tensor prescribed for this level", case | {"p": pf},
+                         key="value_at_risk:dim-none", detail=str(v)[:100])
+        else:
+            lam = g.choice([1.0, 2.0, 10.0])
+            st, v, _ = call_impl(fnl.quadratic_cvar, x, lam)
+            exact, wstar = qcvar_exact(lam, allv)
+            spread = float(max(allv) - min(allv)) + 1e-8
+            prec = 1e-6 * 10 ** int(math.log10(2 * spread)) if spread > 0 else 1e-6
+            tol = lam * (10 * prec) ** 2 + 1e-9 * max(1.0, abs(float(exact)))
+            if st != "ok" or v.dim() != 0 or not (abs(float(v) - float(exact)) <= tol):
+                rng_small = float(max(allv)) - float(sum(allv) / nall) < 1 / (2 * lam)
+                ctx.fail("quadratic_cvar(dim=None) is not the minimum over w for the whole tensor as one sample", case | {"lam": lam},
+                         key="quadratic_cvar:bracket-misses-root" if rng_small else "quadratic_cvar:dim-none", detail=str(v)[:100])
     try:
         outs = ctx.driver(reqs)
     except DriverBroken as e:
